@@ -981,7 +981,9 @@ func (c *CharClassMatcher) NullableVisit(rules map[string]*Rule) bool {
 
 // IsNullable returns the nullable attribute of the node.
 func (c *CharClassMatcher) IsNullable() bool {
-	return len(c.Chars) == 0 && len(c.Ranges) == 0 && len(c.UnicodeClasses) == 0
+	// a class always consumes one character when it matches: [] matches nothing
+	// and [^] matches any character, neither matches the empty string
+	return false
 }
 
 // InitialNames returns names of nodes with which an expression can begin.
